@@ -86,3 +86,50 @@ def polygon(rng, cx=0, cy=0, R=8):
     if k < 0.8:
         return rect_polygon(rng, cx, cy)
     return lshape_polygon(rng, cx, cy)
+
+
+# ---------------------------------------------------------------------------------------------------------------------------------------------
+def separation(polys):
+    """Smallest distance between a FEATURE POINT of the arrangement of the polygons (vertices, crossings, and the midpoint of every
+    stretch of an edge between two features - the points the library evaluates) and an edge it does not lie on.  Exact rational
+    geometry, distance returned as float.  shapepy decides `point on curve` with an ABSOLUTE 1e-6: drawings whose separation is near or
+    below that are fragile territory (finding K8) and are not generated at random."""
+    import math
+    edges = []
+    for pi, vs in enumerate(polys):
+        n = len(vs)
+        for i in range(n):
+            edges.append((pi, (F(vs[i][0]), F(vs[i][1])), (F(vs[(i + 1) % n][0]), F(vs[(i + 1) % n][1]))))
+    params = {k: {F(0), F(1)} for k in range(len(edges))}
+    for i, (pa, a0, a1) in enumerate(edges):
+        for j, (pb, b0, b1) in enumerate(edges):
+            if pa >= pb:
+                continue
+            v0 = (a1[0] - a0[0], a1[1] - a0[1]); v1 = (b1[0] - b0[0], b1[1] - b0[1]); d = (b0[0] - a0[0], b0[1] - a0[1])
+            den = v0[0] * v1[1] - v0[1] * v1[0]
+            if den == 0:
+                continue
+            u = (d[0] * v1[1] - d[1] * v1[0]) / den; v = (d[0] * v0[1] - d[1] * v0[0]) / den
+            if 0 <= u <= 1 and 0 <= v <= 1:
+                params[i].add(u); params[j].add(v)
+    best = float("inf")
+    for i, (pa, a0, a1) in enumerate(edges):
+        us = sorted(params[i])
+        cand = set(us)
+        for x in range(len(us)):
+            for y in range(x + 1, len(us)):
+                cand.add((us[x] + us[y]) / 2)
+        for u in cand:
+            p = (a0[0] + u * (a1[0] - a0[0]), a0[1] + u * (a1[1] - a0[1]))
+            for j, (pb, b0, b1) in enumerate(edges):
+                if j == i:
+                    continue
+                dv = (b1[0] - b0[0], b1[1] - b0[1]); n2 = dv[0] * dv[0] + dv[1] * dv[1]
+                t = ((p[0] - b0[0]) * dv[0] + (p[1] - b0[1]) * dv[1]) / n2
+                t = max(F(0), min(F(1), t))
+                q = (b0[0] + t * dv[0], b0[1] + t * dv[1])
+                d2 = (p[0] - q[0]) ** 2 + (p[1] - q[1]) ** 2
+                if d2 == 0:
+                    continue        # the point lies on that edge (a crossing or a shared vertex)
+                best = min(best, math.sqrt(float(d2)))
+    return best
